@@ -645,7 +645,9 @@ class LTTextBox(LTTextContainer[LTTextLine]):
 class LTTextBoxHorizontal(LTTextBox):
     def analyze(self, laparams: LAParams) -> None:
         super().analyze(laparams)
-        self._objs.sort(key=lambda obj: -obj.y1)
+        # lines at the same height are read left to right (the order in
+        # which the spatial index returned them is not meaningful)
+        self._objs.sort(key=lambda obj: (-obj.y1, obj.x0))
 
     def get_writing_mode(self) -> str:
         return "lr-tb"
@@ -654,7 +656,8 @@ class LTTextBoxHorizontal(LTTextBox):
 class LTTextBoxVertical(LTTextBox):
     def analyze(self, laparams: LAParams) -> None:
         super().analyze(laparams)
-        self._objs.sort(key=lambda obj: -obj.x1)
+        # columns at the same position are read top to bottom
+        self._objs.sort(key=lambda obj: (-obj.x1, -obj.y1))
 
     def get_writing_mode(self) -> str:
         return "tb-rl"
